@@ -57,6 +57,7 @@ Edges3(u, v, w) == [k |-> "edges3", v |-> u, v2 |-> v, v3 |-> w]
 NodesHB(v) == [k |-> "nodesH", v |-> v]
 EdgesHB(u, v) == [k |-> "edgesH", v |-> u, v2 |-> v]
 Neigh(v, of) == [k |-> "neigh", v |-> v, of |-> of]                                  \* (_, v) in neigh_edges(of)
+NeighOf(v, node) == [k |-> "neighof", v |-> v, node |-> node]                        \* (_, v) in neigh_edges_of("N1", G): the node by its name
 Zip(a, b, arr1, arr2) == [k |-> "zip", v |-> a, v2 |-> b, arr |-> arr1, arr2 |-> arr2]
 SetOp(v, fn, arr1, arr2) == [k |-> "setop", v |-> v, fn |-> fn, arr |-> arr1, arr2 |-> arr2]
 RngTo(v, lo, hiname) == [k |-> "rangeto", v |-> v, lo |-> lo, hiname |-> hiname]     \* i in lo..j  (dependent bound)
@@ -83,6 +84,7 @@ BinderText(b) ==
      [] b.k = "nodesH" -> b.v \o " in " \o FnName("nodes") \o "(H)"
      [] b.k = "edgesH" -> "(" \o b.v \o ", " \o b.v2 \o ") in " \o FnName("edges") \o "(H)"
      [] b.k = "neigh" -> "(_, " \o b.v \o ") in " \o FnName("neigh_edges") \o "(" \o b.of \o ")"
+     [] b.k = "neighof" -> "(_, " \o b.v \o ") in " \o (IF Short THEN "N_of" ELSE "neigh_edges_of") \o "(\"" \o b.node \o "\", G)"
      [] b.k = "zip" -> "(" \o b.v \o ", " \o b.v2 \o ") in zip(" \o b.arr \o ", " \o b.arr2 \o ")"
      [] b.k = "setop" -> b.v \o " in " \o b.fn \o "(" \o b.arr \o ", " \o b.arr2 \o ")"
 RECURSIVE JoinS(_, _, _)
@@ -119,6 +121,7 @@ Bind(b, env) ==
      [] b.k = "nodesH" -> [j \in 1..Len(NodesH) |-> env @@ (b.v :> NodeB(NodesH[j]))]
      [] b.k = "edgesH" -> <<>>
      [] b.k = "neigh" -> LET es == OutEdges(env[b.of].s) IN [j \in 1..Len(es) |-> env @@ (b.v :> NodeB(es[j].v))]
+     [] b.k = "neighof" -> LET es == OutEdges(b.node) IN [j \in 1..Len(es) |-> env @@ (b.v :> NodeB(es[j].v))]
      [] b.k = "zip" -> [j \in 1..MinOf(Len(ArrOf(b.arr)), Len(ArrOf(b.arr2))) |-> env @@ (b.v :> NumB(ArrOf(b.arr)[j])) @@ (b.v2 :> NumB(ArrOf(b.arr2)[j]))]
      [] b.k = "setop" -> LET q == SetVal(b.fn, ArrOf(b.arr), ArrOf(b.arr2)) IN [j \in 1..Len(q) |-> env @@ (b.v :> NumB(q[j]))]
 RECURSIVE Flat(_, _)
@@ -280,6 +283,9 @@ RowsSets == {Row(a, <<SetOp("e", fn, a1, a2)>>, Term("x", <<Ix("e", 0)>>, cf), <
 RowsNeigh == {Row(a, <<Neigh("v", "u")>>, Term("z", <<Ix("v", 0)>>, One), <<Term("z", <<Ix("u", 0)>>, One)>>, c, 1, n, "u", <<NodesB("u")>>)
                : a \in {"sum"}, c \in {"ge", "le"}, n \in BOOLEAN}
              \cup {Row("none", <<>>, Term("f", <<Ix("u", 0), Ix("v", 0)>>, One), <<>>, "le", 2, FALSE, "u", <<NodesB("u"), Neigh("v", "u")>>)}
+             \* the neighbours of a node given by its name (N3 has none)
+             \cup {Row(a, <<NeighOf("v", nd)>>, Term("z", <<Ix("v", 0)>>, One), <<>>, c, 1, FALSE, "v", <<>>) : a \in {"sum", "max"}, c \in {"ge", "le"}, nd \in {"N1", "N2", "N3"}}
+             \cup {Row("none", <<>>, Term("z", <<Ix("v", 0)>>, One), <<>>, "le", 2, TRUE, "v", <<NeighOf("v", "N1")>>)}
 \* scoping: the same name in two aggregations side by side (fine), in nested binders, in `for` and inside (rejected)
 ScopeBinders == {Rng("i", 0, 2), Rng("i", 1, 3), RngI("j", 0, 1), InArr("i", "W2"), Enum("a", "i", "W2"), Enum("i", "j", "W2")}
 RowsScope == {WithMore(Row("sum", <<b1>>, Term("x", <<Ix(b1.v, 0)>>, One), <<>>, "le", 3, FALSE, "i", fr),
